@@ -52,7 +52,7 @@ var qtypes = []qtype{
 // every codec reachable through enc.FromCode
 var codecCodes = []byte{'T', 'S', 'U', 'W', 'X', 'V', 'Y', 'R'}
 
-// tunnel domains of several lengths (4, 11, 18, 40, 70, 120 characters)
+// tunnel domains of several lengths (4, 11, 18, 40, 70, 120, 188, 200 characters)
 var domains = []string{
 	"t.co",
 	"example.com",
@@ -60,6 +60,9 @@ var domains = []string{
 	"dns-tunnel.department.example-company.net",
 	"a-rather-long-label-for-a-tunnel-domain.with-several-more-labels.example.org",
 	"x123456789.x123456789.x123456789.x123456789.x123456789.x123456789.x123456789.x123456789.x123456789.x123456789.example.com",
+	// 188 and 200 characters: a host-name record then carries 60 encoded characters or fewer (one label, nothing to dotify)
+	"yx123456789.x123456789.x123456789.x123456789.x123456789.x123456789.x123456789.x123456789.x123456789.x123456789.x123456789.x123456789.x123456789.x123456789.x123456789.x123456789.example.com",
+	"123456789.x123456789.x123456789.x123456789.x123456789.x123456789.x123456789.x123456789.x123456789.x123456789.x123456789.x123456789.x123456789.x123456789.x123456789.x123456789.x123456789.ab.example.com",
 }
 
 // question names: a short one, one that looks like a real data query, and the longest legal one
